@@ -109,7 +109,7 @@ func verifRulesText(rules []*config_parser.RoutingRule) string {
 }
 
 func TestVerifC04(t *testing.T) {
-	m := vk.NewMonitor("C04", "", "exploration",
+	m := vk.NewMonitor("C04", os.Getenv("VERIF_PART"), "exploration",
 		"rule lists biased to adjacent rules sharing function name, negation and outbound, repeated/overlapping values, aliases and geodata references (files written by the monitor); "+
 			"each optimiser pipeline's compiled matcher vs the reference interpreter on the list as written; distinct = (pipeline, which optimisers changed the rule text, shape of the deciding rule); non-trivial = the optimiser pipeline changed the rule list")
 	m.SetFloor(200)
